@@ -20,8 +20,7 @@ theorem processWounds_allClosed (s : Signed) (ws : List Wound) :
     simp only [hk]
     exact ih t q (fun w' hw' => h w' (List.mem_cons_of_mem _ hw'))
 
-/-- The queue step for one file wound: append the index unless it is already queued. -/
-def enqueue (q : List Nat) (i : Nat) : List Nat := if q.contains i then q else q ++ [i]
+/-! ### the queue step (`enqueue` is part of the model: Model/Heal.lean) -/
 
 theorem enqueue_nodup (q : List Nat) (i : Nat) (h : q.Nodup) : (enqueue q i).Nodup := by
   unfold enqueue
@@ -56,64 +55,301 @@ theorem enqueue_prefix (q : List Nat) (i : Nat) : ∃ r, enqueue q i = q ++ r :=
   · exact ⟨[], by rw [if_pos hc, List.append_nil]⟩
   · exact ⟨[i], by rw [if_neg hc]⟩
 
+/-! ### what a directory wound may add to the queue (`healBelow`, third loop) -/
+
+/-- `q'` is `q` followed by new, pairwise distinct indices of signed files that lie below `p`. -/
+def QExt (s : Signed) (p : Path) (q q' : List Nat) : Prop :=
+  ∃ r, q' = q ++ r ∧ r.Nodup ∧ ∀ i ∈ r, i ∉ q ∧ ∃ e, s.files[i]? = some e ∧ isPrefix p e.1 = true
+
+theorem QExt.refl (s : Signed) (p : Path) (q : List Nat) : QExt s p q q :=
+  ⟨[], (List.append_nil _).symm, List.nodup_nil, fun _ h => by cases h⟩
+
+theorem QExt.trans {s : Signed} {p : Path} {q₁ q₂ q₃ : List Nat} (a : QExt s p q₁ q₂) (b : QExt s p q₂ q₃) :
+    QExt s p q₁ q₃ := by
+  obtain ⟨r₁, rfl, hn₁, h₁⟩ := a
+  obtain ⟨r₂, rfl, hn₂, h₂⟩ := b
+  refine ⟨r₁ ++ r₂, by rw [List.append_assoc], ?_, ?_⟩
+  · rw [List.nodup_append]
+    refine ⟨hn₁, hn₂, ?_⟩
+    intro a ha b hb hab
+    subst hab
+    exact (h₂ a hb).1 (List.mem_append_right _ ha)
+  · intro i hi
+    rcases List.mem_append.mp hi with hi | hi
+    · exact h₁ i hi
+    · exact ⟨fun h => (h₂ i hi).1 (List.mem_append_left _ h), (h₂ i hi).2⟩
+
+theorem isPrefix_trans' {p d x : Path} (h₁ : isPrefix p d = true) (h₂ : isPrefix d x = true) :
+    isPrefix p x = true := by
+  simp only [isPrefix, Bool.and_eq_true, decide_eq_true_eq, beq_iff_eq] at h₁ h₂ ⊢
+  refine ⟨by omega, ?_⟩
+  have : List.take p.length x = List.take p.length (List.take d.length x) := by
+    rw [List.take_take, Nat.min_eq_left (by omega)]
+  rw [this, h₂.2, h₁.2]
+
+/-- what is below a directory below `p` is below `p` -/
+theorem QExt.weaken {s : Signed} {p d : Path} {q q' : List Nat} (hd : isPrefix p d = true)
+    (a : QExt s d q q') : QExt s p q q' := by
+  obtain ⟨r, rfl, hn, h⟩ := a
+  refine ⟨r, rfl, hn, fun i hi => ⟨(h i hi).1, ?_⟩⟩
+  obtain ⟨e, he, hpe⟩ := (h i hi).2
+  exact ⟨e, he, isPrefix_trans' hd hpe⟩
+
+theorem QExt.enqueue {s : Signed} {p : Path} (q : List Nat) {i : Nat} {e : Path × List Byte}
+    (he : s.files[i]? = some e) (hp : isPrefix p e.1 = true) : QExt s p q (enqueue q i) := by
+  unfold Heal.enqueue
+  by_cases hc : q.contains i = true
+  · rw [if_pos hc]; exact QExt.refl s p q
+  · rw [if_neg hc]
+    have hni : i ∉ q := fun hm => hc (List.contains_iff_mem.mpr hm)
+    refine ⟨[i], rfl, by simp, ?_⟩
+    intro j hj
+    rw [List.mem_singleton] at hj
+    subst hj
+    exact ⟨hni, e, he, hp⟩
+
+theorem QExt.nodup {s : Signed} {p : Path} {q q' : List Nat} (a : QExt s p q q') (h : q.Nodup) : q'.Nodup := by
+  obtain ⟨r, rfl, hn, hr⟩ := a
+  rw [List.nodup_append]
+  refine ⟨h, hn, ?_⟩
+  intro a ha b hb hab
+  subst hab
+  exact (hr a hb).1 ha
+
+theorem QExt.mem {s : Signed} {p : Path} {q q' : List Nat} (a : QExt s p q q') {i : Nat} (hi : i ∈ q') :
+    i ∈ q ∨ ∃ e, s.files[i]? = some e ∧ isPrefix p e.1 = true := by
+  obtain ⟨r, rfl, _, hr⟩ := a
+  rcases List.mem_append.mp hi with hi | hi
+  · exact .inl hi
+  · exact .inr (hr i hi).2
+
+theorem QExt.sub {s : Signed} {p : Path} {q q' : List Nat} (a : QExt s p q q') {i : Nat} (hi : i ∈ q) :
+    i ∈ q' := by
+  obtain ⟨r, rfl, _, _⟩ := a
+  exact List.mem_append_left _ hi
+
+/-- a duplicate-free list of numbers below `n` has at most `n` elements -/
+theorem nodup_bounded_length : ∀ (n : Nat) (l : List Nat), l.Nodup → (∀ i ∈ l, i < n) → l.length ≤ n := by
+  intro n
+  induction n with
+  | zero =>
+    intro l _ h
+    cases l with
+    | nil => exact Nat.le_refl _
+    | cons a l => exact absurd (h a (by simp)) (Nat.not_lt_zero _)
+  | succ n ih =>
+    intro l hnd hlt
+    have h1 : (l.erase n).Nodup := hnd.erase n
+    have h2 : ∀ i ∈ l.erase n, i < n := by
+      intro i hi
+      have hm := (List.Nodup.mem_erase_iff hnd).mp hi
+      have := hlt i hm.2
+      have hne := hm.1
+      omega
+    have h3 := ih _ h1 h2
+    rw [List.length_erase] at h3
+    split at h3 <;> omega
+
+/-- a directory wound lengthens the queue by at most the number of signed files -/
+theorem QExt.length_le {s : Signed} {p : Path} {q q' : List Nat} (a : QExt s p q q') :
+    q.length ≤ q'.length ∧ q'.length ≤ q.length + s.files.length := by
+  obtain ⟨r, rfl, hn, hr⟩ := a
+  have := nodup_bounded_length s.files.length r hn (by
+    intro i hi
+    obtain ⟨e, he, _⟩ := (hr i hi).2
+    exact (List.getElem?_eq_some_iff.mp he).1)
+  simp only [List.length_append]
+  omega
+
+theorem queueFilesBelow_ext (s : Signed) (p : Path) : ∀ (fs : List (Path × List Byte)) (i : Nat) (q : List Nat),
+    (∀ k, fs[k]? = s.files[i + k]?) → QExt s p q (queueFilesBelow p i fs q) := by
+  intro fs
+  induction fs with
+  | nil => intro i q _; exact QExt.refl s p q
+  | cons f fs ih =>
+    intro i q hfs
+    obtain ⟨fp, fd⟩ := f
+    simp only [queueFilesBelow]
+    have hi : s.files[i]? = some (fp, fd) := by simpa using (hfs 0).symm
+    have htl : ∀ k, fs[k]? = s.files[i + 1 + k]? := by
+      intro k
+      have := hfs (k + 1)
+      simp only [List.getElem?_cons_succ] at this
+      rw [this]; congr 1; omega
+    by_cases hb : isPrefix p fp = true
+    · rw [if_pos hb]
+      exact (QExt.enqueue q hi hb).trans (ih (i + 1) _ htl)
+    · rw [if_neg hb]
+      exact ih (i + 1) q htl
+
+/-- every signed file below `p` is in the queue after the third loop of `healBelow(p)` -/
+theorem mem_queueFilesBelow (p : Path) : ∀ (fs : List (Path × List Byte)) (i : Nat) (q : List Nat) (j : Nat),
+    (j ∈ q ∨ ∃ k e, fs[k]? = some e ∧ j = i + k ∧ isPrefix p e.1 = true) → j ∈ queueFilesBelow p i fs q := by
+  intro fs
+  induction fs with
+  | nil =>
+    intro i q j h
+    rcases h with h | ⟨k, e, hk, _⟩
+    · exact h
+    · simp at hk
+  | cons f fs ih =>
+    intro i q j h
+    obtain ⟨fp, fd⟩ := f
+    simp only [queueFilesBelow]
+    apply ih
+    rcases h with h | ⟨k, e, hk, hj, hb⟩
+    · left
+      split
+      · exact (mem_enqueue _ _ _).mpr (.inl h)
+      · exact h
+    · cases k with
+      | zero =>
+        simp only [List.getElem?_cons_zero, Option.some.injEq] at hk
+        subst hk
+        left
+        rw [if_pos hb]
+        exact (mem_enqueue _ _ _).mpr (.inr (by omega))
+      | succ k =>
+        right
+        exact ⟨k, e, by simpa using hk, by omega, hb⟩
+
+theorem healDirsBelow_ext {s : Signed} {p : Path}
+    {dirWound : Tree → List Nat → Path → Except Err (Tree × List Nat)}
+    (hrec : ∀ t q d t' q', isPrefix p d = true → dirWound t q d = .ok (t', q') → QExt s p q q') :
+    ∀ (ds : List Path) (t : Tree) (q : List Nat) (t' : Tree) (q' : List Nat),
+      healDirsBelow dirWound p ds t q = .ok (t', q') → QExt s p q q' := by
+  intro ds
+  induction ds with
+  | nil =>
+    intro t q t' q' h
+    simp only [healDirsBelow, Except.ok.injEq, Prod.mk.injEq] at h
+    rw [← h.2]; exact QExt.refl s p q
+  | cons d ds ih =>
+    intro t q t' q' h
+    simp only [healDirsBelow] at h
+    by_cases hb : isPrefix p d = true
+    · rw [if_pos hb] at h
+      cases hr : dirWound t q d with
+      | error e => simp [hr] at h
+      | ok r =>
+        obtain ⟨t₁, q₁⟩ := r
+        simp only [hr] at h
+        exact (hrec t q d t₁ q₁ hb hr).trans (ih t₁ q₁ t' q' h)
+    · rw [if_neg hb] at h
+      exact ih t q t' q' h
+
+/-- A directory wound leaves the queue as it is or appends new indices of signed files below its directory. -/
+theorem healDir_ext (s : Signed) : ∀ (n : Nat) (t : Tree) (q : List Nat) (p : Path) (t' : Tree) (q' : List Nat),
+    healDir s n t q p = .ok (t', q') → QExt s p q q' := by
+  intro n
+  induction n with
+  | zero => intro t q p t' q' h; simp [healDir] at h
+  | succ n ih =>
+    intro t q p t' q' h
+    simp only [healDir] at h
+    split at h
+    · simp only [Except.ok.injEq, Prod.mk.injEq] at h
+      rw [← h.2]; exact QExt.refl s p q
+    · split at h
+      · cases h
+      · split at h
+        · cases h
+        · split at h
+          · cases h
+          · next t₃ q₃ hd =>
+            split at h
+            · cases h
+            · simp only [Except.ok.injEq, Prod.mk.injEq] at h
+              rw [← h.2]
+              have h1 : QExt s p q q₃ :=
+                healDirsBelow_ext (fun t q d t' q' hb hr => (ih t q d t' q' hr).weaken hb) s.dirs _ q _ q₃ hd
+              exact h1.trans (queueFilesBelow_ext s p s.files 0 q₃ (by intro k; simp))
+    · split at h
+      · cases h
+      · simp only [Except.ok.injEq, Prod.mk.injEq] at h
+        rw [← h.2]; exact QExt.refl s p q
+
 /-- The queue built by `processWounds`, started from a duplicate-free queue `q₀`: `q₀` followed by new
-    indices, duplicate-free, holding exactly the indices of `q₀` and of the file wounds. -/
+    indices, duplicate-free; it holds the indices of `q₀` and of all file wounds, and besides these only
+    files below a directory that had a directory wound (`healBelow`). -/
 theorem processWounds_queue (s : Signed) (ws : List Wound) :
     ∀ (t t' : Tree) (q₀ q : List Nat), q₀.Nodup → processWounds s ws t q₀ = .ok (t', q) →
       q.Nodup ∧ (∃ r, q = q₀ ++ r) ∧
-      ∀ i, i ∈ q ↔ i ∈ q₀ ∨ ∃ w ∈ ws, w.kind = .file ∧ w.index = i := by
+      (∀ i, (i ∈ q₀ ∨ ∃ w ∈ ws, w.kind = .file ∧ w.index = i) → i ∈ q) ∧
+      (∀ i ∈ q, i ∈ q₀ ∨ (∃ w ∈ ws, w.kind = .file ∧ w.index = i) ∨
+        ∃ w ∈ ws, w.kind = .dir ∧ ∃ p e, s.dirs[w.index]? = some p ∧ s.files[i]? = some e ∧
+          isPrefix p e.1 = true) := by
   induction ws with
   | nil =>
     intro t t' q₀ q hq₀ h
     simp only [processWounds, Except.ok.injEq, Prod.mk.injEq] at h
     obtain ⟨_, rfl⟩ := h
-    refine ⟨hq₀, ⟨[], (List.append_nil _).symm⟩, fun i => ?_⟩
-    simp only [List.not_mem_nil, false_and, exists_false, or_false]
+    refine ⟨hq₀, ⟨[], (List.append_nil _).symm⟩, fun i hi => ?_, fun i hi => .inl hi⟩
+    rcases hi with hi | ⟨w, hw, _⟩
+    · exact hi
+    · cases hw
   | cons w ws ih =>
     intro t t' q₀ q hq₀ h
     rw [processWounds] at h
     -- the tail's result, whatever tree and queue it is started from
     have tail : ∀ (t₁ : Tree) (q₁ : List Nat), q₁.Nodup → (∃ r, q₁ = q₀ ++ r) →
-        (∀ i, i ∈ q₁ ↔ i ∈ q₀ ∨ (w.kind = .file ∧ w.index = i)) →
+        (∀ i, (i ∈ q₀ ∨ (w.kind = .file ∧ w.index = i)) → i ∈ q₁) →
+        (∀ i ∈ q₁, i ∈ q₀ ∨ (w.kind = .file ∧ w.index = i) ∨
+          (w.kind = .dir ∧ ∃ p e, s.dirs[w.index]? = some p ∧ s.files[i]? = some e ∧ isPrefix p e.1 = true)) →
         processWounds s ws t₁ q₁ = .ok (t', q) →
         q.Nodup ∧ (∃ r, q = q₀ ++ r) ∧
-          ∀ i, i ∈ q ↔ i ∈ q₀ ∨ ∃ w' ∈ w :: ws, w'.kind = .file ∧ w'.index = i := by
-      intro t₁ q₁ hq₁ hpre hmem h₁
-      obtain ⟨hnd, ⟨r, hr⟩, hiff⟩ := ih t₁ t' q₁ q hq₁ h₁
+          (∀ i, (i ∈ q₀ ∨ ∃ w' ∈ w :: ws, w'.kind = .file ∧ w'.index = i) → i ∈ q) ∧
+          (∀ i ∈ q, i ∈ q₀ ∨ (∃ w' ∈ w :: ws, w'.kind = .file ∧ w'.index = i) ∨
+            ∃ w' ∈ w :: ws, w'.kind = .dir ∧ ∃ p e, s.dirs[w'.index]? = some p ∧ s.files[i]? = some e ∧
+              isPrefix p e.1 = true) := by
+      intro t₁ q₁ hq₁ hpre hin hout h₁
+      obtain ⟨hnd, ⟨r, hr⟩, hsub, hsup⟩ := ih t₁ t' q₁ q hq₁ h₁
       obtain ⟨r₁, hr₁⟩ := hpre
-      refine ⟨hnd, ⟨r₁ ++ r, by rw [hr, hr₁, List.append_assoc]⟩, fun i => ?_⟩
-      rw [hiff i, hmem i]
-      simp only [List.mem_cons, exists_eq_or_imp]
-      constructor
-      · rintro ((h | h) | h)
-        · exact .inl h
-        · exact .inr (.inl h)
-        · exact .inr (.inr h)
-      · rintro (h | h | h)
-        · exact .inl (.inl h)
-        · exact .inl (.inr h)
-        · exact .inr h
+      refine ⟨hnd, ⟨r₁ ++ r, by rw [hr, hr₁, List.append_assoc]⟩, fun i hi => ?_, fun i hi => ?_⟩
+      · rcases hi with hi | ⟨w', hw', hk, hidx⟩
+        · exact hsub i (.inl (hin i (.inl hi)))
+        · rcases List.mem_cons.mp hw' with rfl | hw'
+          · exact hsub i (.inl (hin i (.inr ⟨hk, hidx⟩)))
+          · exact hsub i (.inr ⟨w', hw', hk, hidx⟩)
+      · rcases hsup i hi with h1 | ⟨w', hw', hk⟩ | ⟨w', hw', hk⟩
+        · rcases hout i h1 with h2 | h2 | h2
+          · exact .inl h2
+          · exact .inr (.inl ⟨w, List.mem_cons_self .., h2⟩)
+          · exact .inr (.inr ⟨w, List.mem_cons_self .., h2⟩)
+        · exact .inr (.inl ⟨w', List.mem_cons_of_mem _ hw', hk⟩)
+        · exact .inr (.inr ⟨w', List.mem_cons_of_mem _ hw', hk⟩)
     have same : ∀ (t₁ : Tree), w.kind ≠ .file → processWounds s ws t₁ q₀ = .ok (t', q) →
         q.Nodup ∧ (∃ r, q = q₀ ++ r) ∧
-          ∀ i, i ∈ q ↔ i ∈ q₀ ∨ ∃ w' ∈ w :: ws, w'.kind = .file ∧ w'.index = i := by
+          (∀ i, (i ∈ q₀ ∨ ∃ w' ∈ w :: ws, w'.kind = .file ∧ w'.index = i) → i ∈ q) ∧
+          (∀ i ∈ q, i ∈ q₀ ∨ (∃ w' ∈ w :: ws, w'.kind = .file ∧ w'.index = i) ∨
+            ∃ w' ∈ w :: ws, w'.kind = .dir ∧ ∃ p e, s.dirs[w'.index]? = some p ∧ s.files[i]? = some e ∧
+              isPrefix p e.1 = true) := by
       intro t₁ hk h₁
-      refine tail t₁ q₀ hq₀ ⟨[], (List.append_nil _).symm⟩ (fun i => ?_) h₁
-      constructor
-      · exact .inl
-      · rintro (h | ⟨h, _⟩)
-        · exact h
-        · exact absurd h hk
+      refine tail t₁ q₀ hq₀ ⟨[], (List.append_nil _).symm⟩ (fun i hi => ?_) (fun i hi => .inl hi) h₁
+      rcases hi with hi | ⟨hk', _⟩
+      · exact hi
+      · exact absurd hk' hk
     cases hk : w.kind with
     | dir =>
-      have hne : w.kind ≠ .file := by rw [hk]; intro h'; cases h'
       simp only [hk] at h
       cases hp : s.dirs[w.index]? with
       | none => simp only [hp] at h; cases h
       | some p =>
-        simp only [hp, bind, Except.bind] at h
-        cases ht : healDir t p with
+        simp only [hp] at h
+        cases ht : healDir s (healDepth s) t q₀ p with
         | error e => simp only [ht] at h; cases h
-        | ok t₁ => simp only [ht] at h; exact same t₁ hne h
+        | ok r =>
+          obtain ⟨t₁, q₁⟩ := r
+          simp only [ht] at h
+          have hext := healDir_ext s _ t q₀ p t₁ q₁ ht
+          obtain ⟨r, hr, _, _⟩ := id hext
+          refine tail t₁ q₁ (hext.nodup hq₀) ⟨r, hr⟩ (fun i hi => ?_) (fun i hi => ?_) h
+          · rcases hi with hi | ⟨hk', _⟩
+            · exact hext.sub hi
+            · rw [hk] at hk'; cases hk'
+          · rcases hext.mem hi with h1 | ⟨e, he, hpe⟩
+            · exact .inl h1
+            · exact .inr (.inr ⟨hk, p, e, hp, he, hpe⟩)
     | symlink =>
       have hne : w.kind ≠ .file := by rw [hk]; intro h'; cases h'
       simp only [hk] at h
@@ -131,17 +367,17 @@ theorem processWounds_queue (s : Signed) (ws : List Wound) :
       exact same t hne h
     | file =>
       simp only [hk] at h
-      refine tail t (enqueue q₀ w.index) (enqueue_nodup _ _ hq₀) (enqueue_prefix _ _) (fun i => ?_) h
-      rw [mem_enqueue]
-      constructor
-      · rintro (h | h)
-        · exact .inl h
-        · exact .inr ⟨hk, h.symm⟩
-      · rintro (h | ⟨_, h⟩)
-        · exact .inl h
-        · exact .inr h.symm
+      refine tail t (enqueue q₀ w.index) (enqueue_nodup _ _ hq₀) (enqueue_prefix _ _) (fun i hi => ?_)
+        (fun i hi => ?_) h
+      · rw [mem_enqueue]
+        rcases hi with hi | ⟨_, hi⟩
+        · exact .inl hi
+        · exact .inr hi.symm
+      · rcases (mem_enqueue _ _ _).mp hi with h1 | h1
+        · exact .inl h1
+        · exact .inr (.inl ⟨hk, h1.symm⟩)
 
-/-! ### the exact queue: order of first appearance -/
+/-! ### the exact queue when no directory wound is reported: order of first appearance -/
 
 /-- Indices of the file wounds, in the order the validator reported them. -/
 def fileIdx (ws : List Wound) : List Nat := (ws.filter (fun w => w.kind == .file)).map (·.index)
@@ -154,30 +390,21 @@ theorem fileIdx_cons_other (w : Wound) (ws : List Wound) (h : w.kind ≠ .file) 
     fileIdx (w :: ws) = fileIdx ws := by
   simp [fileIdx, h]
 
-/-- The queue is obtained by enqueueing the file-wound indices one after the other. -/
+/-- Without directory wounds the queue is obtained by enqueueing the file-wound indices one after the other. -/
 theorem processWounds_queue_foldl (s : Signed) (ws : List Wound) :
-    ∀ (t t' : Tree) (q₀ q : List Nat), processWounds s ws t q₀ = .ok (t', q) →
+    ∀ (t t' : Tree) (q₀ q : List Nat), (∀ w ∈ ws, w.kind ≠ .dir) → processWounds s ws t q₀ = .ok (t', q) →
       q = (fileIdx ws).foldl enqueue q₀ := by
   induction ws with
   | nil =>
-    intro t t' q₀ q h
+    intro t t' q₀ q _ h
     simp only [processWounds, Except.ok.injEq, Prod.mk.injEq] at h
     exact h.2.symm
   | cons w ws ih =>
-    intro t t' q₀ q h
+    intro t t' q₀ q hnd h
+    have hnd' : ∀ w' ∈ ws, w'.kind ≠ .dir := fun w' hw' => hnd w' (List.mem_cons_of_mem _ hw')
     rw [processWounds] at h
     cases hk : w.kind with
-    | dir =>
-      have hne : w.kind ≠ .file := by rw [hk]; intro h'; cases h'
-      rw [fileIdx_cons_other w ws hne]
-      simp only [hk] at h
-      cases hp : s.dirs[w.index]? with
-      | none => simp only [hp] at h; cases h
-      | some p =>
-        simp only [hp, bind, Except.bind] at h
-        cases ht : healDir t p with
-        | error e => simp only [ht] at h; cases h
-        | ok t₁ => simp only [ht] at h; exact ih t₁ t' q₀ q h
+    | dir => exact absurd hk (hnd w (List.mem_cons_self ..))
     | symlink =>
       have hne : w.kind ≠ .file := by rw [hk]; intro h'; cases h'
       rw [fileIdx_cons_other w ws hne]
@@ -189,16 +416,16 @@ theorem processWounds_queue_foldl (s : Signed) (ws : List Wound) :
         simp only [hp, bind, Except.bind] at h
         cases ht : healSymlink t p d with
         | error e => simp only [ht] at h; cases h
-        | ok t₁ => simp only [ht] at h; exact ih t₁ t' q₀ q h
+        | ok t₁ => simp only [ht] at h; exact ih t₁ t' q₀ q hnd' h
     | closedFile =>
       have hne : w.kind ≠ .file := by rw [hk]; intro h'; cases h'
       rw [fileIdx_cons_other w ws hne]
       simp only [hk] at h
-      exact ih t t' q₀ q h
+      exact ih t t' q₀ q hnd' h
     | file =>
       rw [fileIdx_cons_file w ws hk, List.foldl_cons]
       simp only [hk] at h
-      exact ih t t' (enqueue q₀ w.index) q h
+      exact ih t t' (enqueue q₀ w.index) q hnd' h
 
 /-- Enqueueing a list of indices one after the other keeps the first occurrence of each new index. -/
 theorem foldl_enqueue (l : List Nat) : ∀ q₀ : List Nat,
